@@ -254,7 +254,7 @@ func (g *gen) boolean(d int) string {
 	case 3:
 		return g.num(d-1) + pick(g.r, []string{" == ", " != ", " < ", " > ", " <= ", " >= "}) + g.num(d-1)
 	case 4:
-		return pick(g.r, strVars) + " is " + pick(g.r, []string{"defined", "empty", "null", "not defined", "iterable"})
+		return pick(g.r, strVars) + " is " + pick(g.r, []string{"defined", "empty", "null", "not defined", "iterable", "not empty", "none", "same_as(s1)", "not same_as(s2)", "not iterable"})
 	case 5:
 		if g.f.Spies && g.f.SpyPct > 0 && g.r.P(g.f.SpyPct/2) {
 			return g.at("test-arg", func() string { return g.num(d-1) + " is divisible_by(spy('" + g.spyID() + "', 3))" })
@@ -264,7 +264,7 @@ func (g *gen) boolean(d int) string {
 		if g.f.Spies && g.f.SpyPct > 0 && g.r.P(g.f.SpyPct/2) {
 			return g.at("in-operand", func() string { return "spy('" + g.spyID() + "', s1) in " + pick(g.r, listVars) })
 		}
-		return g.scalar(0) + " in " + pick(g.r, listVars)
+		return g.scalar(0) + pick(g.r, []string{" in ", " in ", " not in "}) + pick(g.r, listVars)
 	case 7:
 		return "s1 starts with " + g.strLit()
 	case 8:
